@@ -24,7 +24,7 @@ ASSUMPTIONS = [
     'client is not connected to and must leave the state unchanged',
     'engine.io Socket queues are the observation point',
 ]
-BUDGET = {'quick': 1200, 'thorough': 60000}
+BUDGET = {'quick': 6000, 'thorough': 80000}
 FLOOR = {'quick': 100, 'thorough': 5000}
 
 NSS = ['/', '/a', '/b']
